@@ -479,6 +479,7 @@ theorem inLoop_errIn (m : Mgr) (x : V) (es : List V) : (inLoop m x es).ErrIn opC
     unfold inLoop
     split
     · ei_leaf
+    · ei_leaf
     · exact ih
     · rename_i c h
       exact .err (equalOp_errIn m x e c h)
